@@ -731,7 +731,7 @@ class List(list, base.Symbolic, pg_typing.CustomTyping):
     if self._value_spec and self._value_spec.min_size > 0:
       raise ValueError(
           f'List cannot be cleared: min size is {self._value_spec.min_size}.')
-    super().clear()
+    self._delete_items(list(range(len(self))))
 
   def sort(self, *, key=None, reverse=False) -> None:
     """Sorts the items of the list in place.."""
